@@ -17,7 +17,7 @@ RULE = ('IPv4: full product of the ten boundary octets {0,9,10,99,100,199,200,24
         'braced, upper, undashed}; e-mail/URL(listed TLD)/hashtag/mention/phone from small grammars; each x carrier sentences. '
         'non-trivial = the model returned at least one entity; distinct = distinct (model, query).')
 EXHAUSTIVE = {'quick': False, 'thorough': False}
-JOB_TIMEOUT = 1200
+JOB_TIMEOUT = 5400
 
 B = [0, 9, 10, 99, 100, 199, 200, 249, 250, 255]
 IP_CARRIERS = ['{}', 'my address is {} ok', 'ip {}', '({})', '{}, thanks', 'ping {} now']
